@@ -1420,6 +1420,44 @@ func ruleFixAction(r *Run, rule string) {
 		return
 	}
 	info := fl.Info
+	// Atoms about the attempts: "none" (len(Attempts) == 0), "unfinished" (the last one's End is zero), "errnil"
+	// (the last one's Err is nil). What the code does with the action is judged by assume-and-refute over the
+	// events since the last attempt was dropped: recursion, a loop, early returns or one combined condition alike.
+	atom := func(e ast.Expr) (string, bool, bool) {
+		e = ast.Unparen(e)
+		switch x := e.(type) {
+		case *ast.BinaryExpr:
+			if lc, ok := ast.Unparen(x.X).(*ast.CallExpr); ok && len(lc.Args) == 1 {
+				if id, ok := lc.Fun.(*ast.Ident); ok && id.Name == "len" {
+					if _, m := FieldPath(info, lc.Args[0], "workflow.Action", "Attempts"); m {
+						if k, isC := ConstInt(info, x.Y); isC {
+							switch {
+							case x.Op == token.EQL && k == 0, x.Op == token.LSS && k == 1, x.Op == token.LEQ && k == 0:
+								return "none", false, true
+							case x.Op == token.NEQ && k == 0, x.Op == token.GTR && k == 0, x.Op == token.GEQ && k == 1:
+								return "none", true, true
+							}
+						}
+					}
+				}
+			}
+			if y, op, ok := IsNilCompare(info, x); ok {
+				if _, m := FieldPath(info, y, "", "Err"); m {
+					return "errnil", op == token.NEQ, true
+				}
+			}
+		case *ast.CallExpr:
+			if recv, args, ok := timeMethod(info, x, "IsZero"); ok && len(args) == 0 {
+				if _, m := FieldPath(info, recv, "", "End"); m {
+					return "unfinished", false, true
+				}
+			}
+		}
+		return "", false, false
+	}
+	impossible := func(p *Path, from, to int, asg map[string]bool) bool {
+		return PathRefutedRange(fl, p, from, to, asg, atom)
+	}
 	badReset, badKeep, badDrop := "", "", ""
 	nReset, nKeep, nDrop := 0, 0, 0
 	for i := range paths {
@@ -1427,69 +1465,89 @@ func ruleFixAction(r *Run, rule string) {
 		if p.Exit != ExitReturn {
 			continue
 		}
-		noAttempts, lastUnfinished, lastFinished := false, false, false
-		errNil := ""
-		for _, e := range p.Ev {
-			if e.Kind != EvBranch || e.Cond == nil {
-				continue
-			}
-			s := ExprStr(e.Cond)
-			switch {
-			case strings.Contains(s, "len(") && strings.Contains(s, "Attempts) == 0"):
-				noAttempts = e.Taken
-			case strings.Contains(s, ".End.IsZero()"):
-				lastUnfinished = e.Taken
-				lastFinished = !e.Taken
-			case strings.Contains(s, ".Err == nil"):
-				if e.Taken {
-					errNil = "nil"
-				} else {
-					errNil = "nonnil"
-				}
+		entered := false // past the `Status != Running ⇒ return` guard
+		settled := ""
+		from := 0 // first event after the last dropped attempt: what is known about "the last attempt" starts here
+		reexamined := true
+		resetAt := func(j int, what string) {
+			nReset++
+			settled = "reset"
+			if !impossible(p, from, j, map[string]bool{"none": false}) && badReset == "" {
+				badReset = "fixAction " + what + " on a path that is possible with an attempt left (len(Attempts) == 0 not established after dropping unfinished attempts): an action with a durable result would be invoked again"
 			}
 		}
-		reset, truncated, recursed := false, false, false
-		st := ""
-		for _, e := range p.Ev {
-			if IsCall(e, pkgSM+".resetAction") {
-				reset = true
-			}
-			if IsCall(e, pkgSM+".fixAction") {
-				recursed = true
-			}
-			if v, ok := StatusAssign(info, e, "workflow.Action"); ok {
-				st = v
-			}
-			if e.Kind == EvAssign {
+		for j, e := range p.Ev {
+			switch e.Kind {
+			case EvBranch:
+				if e.Cond == nil {
+					continue
+				}
+				if Establishes(info, e, fieldMatcher(info, "workflow.Action", "State", "Status"), "workflow.Running", true) {
+					entered = true
+				}
+				if j >= from {
+					found := false
+					ast.Inspect(e.Cond, func(n ast.Node) bool {
+						if x, ok := n.(ast.Expr); ok {
+							if _, _, isAtom := atom(x); isAtom {
+								found = true
+							}
+						}
+						return !found
+					})
+					if found {
+						reexamined = true
+					}
+				}
+			case EvCall:
+				if IsCall(e, pkgSM+".resetAction") && !e.Inlined {
+					resetAt(j, "resets an action")
+				}
+				if IsCall(e, pkgSM+".fixAction") {
+					reexamined, settled = true, "recursed"
+				}
+			case EvAssign:
+				if v, ok := StatusAssign(info, e, "workflow.Action"); ok {
+					switch v {
+					case "workflow.NotStarted":
+						resetAt(j, "marks an action NotStarted")
+					case "workflow.Completed", "workflow.Failed":
+						nKeep++
+						settled = v
+						okV := impossible(p, from, j, map[string]bool{"none": true}) &&
+							impossible(p, from, j, map[string]bool{"none": false, "unfinished": true}) &&
+							impossible(p, from, j, map[string]bool{"none": false, "unfinished": false, "errnil": v != "workflow.Completed"})
+						if !okV && badKeep == "" {
+							badKeep = "the action is marked " + strings.TrimPrefix(v, "workflow.") + " on a path that is also possible when it has no attempt, when its last attempt is unfinished, or when that attempt's Err says otherwise: a durable success must become Completed, a durable failure Failed, nothing else"
+						}
+					}
+				}
 				for k, l := range e.Lhs {
 					if _, m := FieldPath(info, l, "workflow.Action", "Attempts"); m && len(e.Rhs) == len(e.Lhs) {
 						if ValueKey(info, e.Rhs[k]) == "nil" {
-							reset = true
+							resetAt(j, "drops all attempts")
 						} else {
-							truncated = true
+							// the last attempt is dropped: only an unfinished one may be
+							nDrop++
+							okD := impossible(p, from, j, map[string]bool{"none": true}) && impossible(p, from, j, map[string]bool{"none": false, "unfinished": false})
+							if !okD && badDrop == "" {
+								badDrop = "an attempt is dropped on a path that is possible when it is finished (End not zero): a durable result would be forgotten and the plugin invoked again"
+							}
+							from = j + 1
+							reexamined = false
 						}
 					}
 				}
 			}
 		}
-		if reset || st == "workflow.NotStarted" {
-			nReset++
-			if !noAttempts && badReset == "" {
-				badReset = "fixAction resets an action (status NotStarted / attempts dropped) on a path that did not establish len(Attempts) == 0: an action with a durable result would be invoked again"
-			}
+		if !entered {
+			continue
 		}
-		if lastFinished {
-			nKeep++
-			want := map[string]string{"nil": "workflow.Completed", "nonnil": "workflow.Failed"}[errNil]
-			if (want == "" || st != want || truncated || reset) && badKeep == "" {
-				badKeep = "a finished last attempt (Err " + orOK(errNil, "untested") + ") leaves the action " + orOK(st, "unassigned") + " (attempts modified=" + boolStr(truncated || reset) + "); a durable success must become Completed, a durable failure Failed"
-			}
+		if !reexamined && badDrop == "" {
+			badDrop = "after dropping an unfinished attempt the action is not examined again (no recursion, no further test): what remains decides whether it is reset, Completed or Failed"
 		}
-		if lastUnfinished {
-			nDrop++
-			if (!truncated || !recursed) && badDrop == "" {
-				badDrop = "an unfinished last attempt must be dropped and the action re-examined (dropped=" + boolStr(truncated) + ", re-examined=" + boolStr(recursed) + ")"
-			}
+		if settled == "" && badKeep == "" {
+			badKeep = "a path leaves a Running action as it is (exit guard " + ExitGuardKey(fl, p) + "): a durable success must become Completed, a durable failure Failed, an action without a finished attempt must be reset"
 		}
 	}
 	if nReset == 0 || nKeep == 0 || nDrop == 0 {
